@@ -12,6 +12,7 @@ import Proofs.Lemmas.CrashSeq
 import Proofs.Lemmas.CrashSeqF1
 import Proofs.Lemmas.CrashFlatMain
 import Proofs.Lemmas.CrashSent
+import Proofs.Lemmas.CrashBatchInv
 namespace Asl.C04
 open Asl
 
@@ -244,27 +245,31 @@ open Asl.Crash in
 MaxConcurrency or with a MaxConcurrency of at least the number of branches (one batch).  What is missing for
 `∀ sk, CrashSafe sk` (on skeletons without `fail` / `opaque`):
 * Map states whose MaxConcurrency `mc` is smaller than the number of items.  The model has the batches, their re-entry events
-  and the durable record of started batches, and the `decide` examples below run them; `never_requested_twice` covers them
-  for the "not again" clause.  What `PInv` lacks (everything else of `CrashFlat*.lean` is indifferent to `mc`):
-  (a) `Shape.cover` per batch instead of per fan-out — the batch-mates of a launched slot are launched
-      (`i / mc = f.idx / mc → slot i has its event`), slot 0 is, and for the record `batches` of attempt `J`:
-      `(J, s) ∈ batches →` the re-entry event for `s` is queued or slot `s` has its event; a slot of batch `k ≥ 1` has its
-      event only if `(J, k * mc) ∈ batches`; `batches` is closed downwards; a queued re-entry event for `s` has every
-      launched slot in an earlier batch (so its launch keeps `Shape.same`: one event per slot);
-  (b) the liveness half, about the join in memory: a batch `k` all of whose slots are filled, with `(k + 1) * mc` short of the
-      width, has `(J, (k + 1) * mc) ∈ batches` (true after a crash: nothing is filled).  With (a), `pquiet` goes by induction
-      on the batch number: every slot has its event, so a queue all of whose events are held is a complete join;
-  (c) `mu2` and `Cons2.phi` with the slots not yet launched accounted for (to the event of slot 0, from the number of
-      recorded batches, and to the re-entry event for the batch it is about to launch);
-  (d) three handler lemmas: the end of a branch that completes a batch (`advance_hold` publishing the re-entry event — today
-      it is stated under `batch_not_done`), the delivery of the re-entry event (as `flat_arm`), its deferred handler
-      (`flat_launch` for a later batch, appending to the branch events that are there).
-  One more thing is in the way: when a crash has wiped the join and the LAST batch is refilled before the
-  earlier held events are redelivered, the quirk-free model publishes a re-entry event for a batch beyond the last one
-  (`from_ + mc = width`; the example "a re-entry event beyond the last batch" below).  It is harmless — it launches nothing,
-  or is dropped when it is delivered after the end — but it is still in the event queue when the terminal notification is
-  published, which `Cons2.psi1` (notification ⇒ empty event queue) excludes: either the model gets the guard
-  `from_ + mc < width` (all proofs here still build with it) or `psi1` is weakened to "only such events are left".
+  and the durable record of started batches (the quirk-free protocol re-enters only for a batch that exists,
+  `from_ + mc < width` — the example "no re-entry event beyond the last batch" below), the `decide` examples below run them,
+  and `never_requested_twice` covers them for the "not again" clause.  Proved so far, as lemmas of their own
+  (`Proofs/Lemmas/CrashBatch.lean`, `CrashBatchInv.lean`; not yet part of `PInv`):
+  (a) the facts about the record and the re-entry events, `BShape` — the batch-mates of a launched slot are launched, slot 0
+      is, a batch on record has its re-entry event queued or is launched, a slot beyond the first batch is launched only if
+      its batch is on record, the record is closed downwards, a queued re-entry event is on record and every launched slot is
+      below its batch, at most one is queued — and that they survive the steps: `BShape.first` (the fan-out state is launched),
+      `BShape.replace` (a visit follows a visit), `BShape.publish` (the branch that completes a batch publishes the re-entry
+      event), `BShape.launch` (its deferred handler launches the batch), `BShape.top`, `BShape.congr`;
+  (b) the liveness fact `BJoin` — a batch that is full in the join in memory, with a successor, has the successor on record —
+      along the steps (`BJoin.hold`, `BJoin.mono`, `BJoin.nil`, `BJoin.crash`), and what it is for: `all_slots_launched` (by
+      induction on the batch number) and `batched_quiet_complete` — no re-entry event queued and every branch event held ⇒ the
+      join is complete (the step of `pquiet`);
+  (c) the accounting of the slots not launched yet: `unl` (by the record, to the event of slot 0) and `bat` (what a re-entry
+      event stands for), with `unl_publish`, `unl_first`, `unl_none`, `launch_map`;
+  (d) of the handlers: what the end of a branch does (`advance_hold_publish`: the batch is full, a next one exists and is not
+      on record ⇒ exactly the re-entry event is published; `advance_hold_quiet`: otherwise nothing).
+  Still missing for `crash_safe_batched`: `flatKind` / `Sk.flat` / `Frame.wf` admitting re-entry events and any `mc`;
+  `Shape.top` exempting re-entry events and `Shape.same` (one event per slot) across `BShape.launch`; `BShape` and `BJoin` as
+  fields of `PInv` / `Mid`, re-established in every handler lemma of `CrashFlat*.lean` (by the lemmas of (a), (b)); `unl` / `bat`
+  inside `restT` / `restW` (so in `Cons2.phi` and `mu2`; `brVisits` must allow 16 units per branch for the re-entry event's own
+  handlers); the three handler lemmas at the level of `PInv` — `fin_hold` with the publication, the delivery of the re-entry
+  event, its deferred handler (`flat_launch` for a later batch) —; `complete_of` with "no re-entry event is queued when the join
+  is complete" and `pquiet` through `batched_quiet_complete`.
 * fan-out states nested in branches (the crash-safe hand-over of a nested join's held events to the enclosing join), and
 * synchronous child executions (a second execution whose terminal answer is a message of the reply queue). -/
 theorem crash_safe_partial (sk : Sk) (hsk : sk.flat = true) : CrashSafe sk :=
@@ -418,16 +423,19 @@ example : (Asl.Crash.run Asl.Crash.Quirks.none
       [(.ev 0, none), (.tm 0, some 1), (.ev 0, none), (.tm 0, none), (.ev 1, some 0), (.ev 1, none), (.crash, none),
        (.ev 2, none), (.ev 1, none)]).isSome = true := by
   decide +kernel
-/-- a re-entry event beyond the last batch (see `crash_safe_partial`): a Map with MaxConcurrency 1 over two items, the engine
-dies once the second item is launched, the second item ends first: a re-entry event for slot 2 of 2 is published; when the
-first item's event has been redelivered the execution has ended (one notification) with that event still queued; the run ends
-all the same -/
+/-- no re-entry event beyond the last batch: a Map with MaxConcurrency 1 over two items, the engine dies once the second item is
+launched, the second item ends first (the LAST batch is full while the join is not): the crash-safe protocol publishes
+nothing (`from_ + mc < width` fails), and when the first item's event has been redelivered the execution has ended with an
+empty event queue; the engine's rule (`batchRelaunched`, C04-F7) re-enters for slot 2 of 2 and ends with that event queued -/
 example :
     ((Asl.Crash.run Asl.Crash.Quirks.none (Asl.Crash.init (.par 1 (.cons (.step .done) (.cons (.step .done) .nil)) .done))
       ([Asl.Crash.Op.ev 0, .tm 0, .ev 1, .ev 2, .tm 2, .crash, .ev 3, .ev 1].map (fun o => (o, none)))).map
-        (fun c => (c.evq.map (fun m => match m.kind with | .reenter _ s _ _ => some s | _ => none), c.notes,
-          (Asl.Crash.drain Asl.Crash.Quirks.none 100 c).evq.length, (Asl.Crash.drain Asl.Crash.Quirks.none 100 c).notes))) =
-      some ([some 2], 1, 0, 1) := by
+        (fun c => (c.evq.map (fun m => match m.kind with | .reenter _ s _ _ => some s | _ => none), c.notes))) =
+      some ([], 1) ∧
+    ((Asl.Crash.run { batchRelaunched := true } (Asl.Crash.init (.par 1 (.cons (.step .done) (.cons (.step .done) .nil)) .done))
+      ([Asl.Crash.Op.ev 0, .tm 0, .ev 1, .ev 2, .tm 2, .crash, .ev 3, .ev 1].map (fun o => (o, none)))).map
+        (fun c => (c.evq.map (fun m => match m.kind with | .reenter _ s _ _ => some s | _ => none), c.notes))) =
+      some ([some 2], 1) := by
   decide +kernel
 /-- beyond the proved class, by computation: a Map with MaxConcurrency 1 over two items (Task, then step) with a crash
 after the second batch was started — the crash-safe protocol does not start the batch again (two requests), the engine's
